@@ -183,7 +183,7 @@ fn gen_plan(r: &mut Rng) -> Plan {
 }
 
 fn rand(ctx: &mut Ctx) {
-    let n = ctx.size(12_000, 200_000, 6);
+    let n = ctx.size(12_000, 60_000, 6);
     for i in 0..n {
         if !ctx.want("rand", i) {
             continue;
@@ -204,7 +204,7 @@ fn rand(ctx: &mut Ctx) {
 // ---------------------------------------------------------------- eval
 
 fn eval(ctx: &mut Ctx) {
-    let n = ctx.size(12_000, 150_000, 6);
+    let n = ctx.size(12_000, 60_000, 6);
     for i in 0..n {
         if !ctx.want("eval", i) {
             continue;
@@ -239,7 +239,7 @@ fn eval(ctx: &mut Ctx) {
 // ---------------------------------------------------------------- cfi
 
 fn cfi(ctx: &mut Ctx) {
-    let n = ctx.size(8_000, 100_000, 6);
+    let n = ctx.size(8_000, 40_000, 6);
     for i in 0..n {
         if !ctx.want("cfi", i) {
             continue;
